@@ -12,9 +12,9 @@
    What is NOT proved: that the two adequacy hypotheses hold along every run of every accepted
    route and train (the closed loop of the discretised controller).  They are evaluated on every
    implementation step by the check and their failure rate is reported. *)
-From Coq Require Import Reals List Bool ZArith Lra.
+From Coq Require Import Reals List Bool ZArith Lra Floats.
 From AltModel Require Import Num Interp Powertrain Loco Consist Resist Braking TrainStep TrainFull.
-From AltProofs Require Import NumR ResistP TrainStepP BrakingP ConsistP TrainFullP.
+From AltProofs Require Import NumR ResistP TrainStepP BrakingP ConsistP TrainFullP StepReverseWitness.
 Import ListNotations.
 Open Scope R_scope.
 
@@ -132,3 +132,14 @@ Theorem C03_whole_step_speed_le_target : forall (e : Env (F:=R)) pts fmax (s s''
     (exists s', sl_solve_step_aux e pts (cl_of c2 fmax) s = Ok (s', ax) /\ s'' = sl_bump s') /\
     (BrakeAdequate ax -> k_speed (ts_k (sl_st s'')) <= k_speed_target (ts_k (sl_st s''))).
 Proof. exact sl_full_step_speed_le_target. Qed.
+
+(* known finding C03/2 shown of the faithful model (proofs/StepReverseWitness.v, binary64 instance, evaluated by the
+   kernel): positive speed, positive time step and mass, the step is accepted with a positive target - and ends with a
+   negative speed.  C03_step_speed_nonneg needs its hypothesis TractionAdequate; the real step() returns the
+   bit-identical state on this input (harness case sl_step/sl18/334 of VERIF_SEED 20268920). *)
+Theorem C03_never_reverses_refuted_without_traction :
+  StepReverseWitness.pre_ok StepReverseWitness.rw_s = true /\
+  exists s', sl_step StepReverseWitness.rw_env StepReverseWitness.rw_pts StepReverseWitness.rw_cl StepReverseWitness.rw_s = Ok s' /\
+             PrimFloat.ltb 0%float (k_speed_target (ts_k (sl_st s'))) = true /\
+             PrimFloat.ltb (k_speed (ts_k (sl_st s'))) 0%float = true.
+Proof. exact StepReverseWitness.step_reverses_witness. Qed.
